@@ -23,6 +23,9 @@ pub(crate) fn update_backtracks<A>(dfa: &mut DFA<StateIdx, A>) {
     let mut visited: Map<StateIdx, bool> = Default::default();
 
     while let Some((state, backtrack)) = work_list.pop() {
+        #[cfg(feature = "verif")]
+        crate::verif::tick("update_backtracks");
+
         // Did we visit the state, with the right backtrack state?
         match visited.entry(state) {
             Entry::Occupied(mut entry) => {
